@@ -601,6 +601,10 @@ func checkReverseNames(c *Ctx) {
 					if call, ok := k.(*ast.CallExpr); ok && builtinName(info, call) == "" {
 						for _, a := range call.Args {
 							if p := selPath(a); p != "" && strings.Contains(p, ".") {
+								// the planned changes of a scratch planner state are statements, not object names
+								if r := rootIdent(a); r != nil && info.ObjectOf(r) != nil && typeIs(derefType(info.ObjectOf(r).Type()), pp, "state") {
+									continue
+								}
 								revPaths = append(revPaths, a)
 							}
 						}
